@@ -1,5 +1,8 @@
 #!/usr/bin/env python3
-"""Collect the confirmed seeded changes into /verif/seeded/<id>/{patch.diff,demonstration.md,meta.json}
+"""(Historical: the agents' output directories under /tmp were removed at the end of the session; seeded/*/meta.json is now
+the source of truth and tools/update_matrix.py regenerates DESIGN.md 12.6 from it.)
+
+Collect the confirmed seeded changes into /verif/seeded/<id>/{patch.diff,demonstration.md,meta.json}
 and print the catch matrix (markdown) for DESIGN.md 12.6.
 
 Inputs: the sub-agents' output directories /tmp/mut{,2,3,4,5}-<PROP>-out/<k>/ and the screening tables
